@@ -9,7 +9,13 @@ import Mathlib.Tactic.NormNum
 /-!
 C11 — property theorems.  Quantifier: every operation history (`List Op`), unbounded: any population
 history (create / delete / configure / reset), any send script (receiver alive, deleted or never created;
-any delay), any number of steps.
+any delay; `broadcast_event`, `random_events` with arbitrary random indices), any number of steps.
+Wave 2 (second half of the file): `C11_midstep` — the same statement for histories whose steps carry arbitrary
+user code that changes the population and sends during the step (`midStep_linear`); `C11_x_partial`,
+`xstepFn_tabled_empty`, `xrun_base`/`C11_full_x` and the `X_witness_*` — the extended machine with handler
+tables, states without a table, names without handler and raising handlers; `ceilRound9_exact`,
+`keptBack_eq_ceil`, `delay_float_steps` — the float conversion `ceil(round(delay/dt, 9))` in ℚ with bounded
+rounding error (Mathlib is imported for that part only).
 -/
 namespace Bptk.C11
 
@@ -1662,6 +1668,51 @@ theorem C11_full_x (ops : List Op) :
   rw [xrun_base]
   exact ⟨C11_full_proved ops, rfl, rfl, rfl, rfl⟩
 
+/-! ### what the assumption buys, step by step -/
+
+theorem phase_tabled_empty (now : Nat) (live : List Nat) (mo : Nat → Meta) (as : List Agent)
+    (hr : (phase now live mo as).raised = false) :
+    ∀ a ∈ (phase now live mo as).agents, (mo a.id).handlers ≠ none → a.inbox = [] := by
+  induction as with
+  | nil => simp [phase]
+  | cons a rest ih =>
+    cases hm : (mo a.id).handlers with
+    | none =>
+      simp only [phase, hm] at hr ⊢
+      intro a' ha' hh
+      simp only [List.mem_cons] at ha'
+      rcases ha' with rfl | ha'
+      · exact absurd hm hh
+      · exact ih hr a' ha' hh
+    | some names =>
+      simp only [phase, hm] at hr ⊢
+      cases hd : (drain names (mkHandled now live a.id) a.inbox.reverse).raised with
+      | true => simp [hd] at hr
+      | false =>
+        simp only [hd, Bool.false_eq_true, if_false] at hr ⊢
+        intro a' ha' hh
+        simp only [List.mem_cons] at ha'
+        rcases ha' with rfl | ha'
+        · rfl
+        · exact ih hr a' ha' hh
+
+/-- In a step that no handler aborts, every agent whose state has a handler table pops its whole inbox: what was
+held from earlier steps and everything distributed to it in this step (each such event is then in the log or, when
+its name has no handler, among the ignored ones — `C11_x_partial`'s conservation clause). -/
+theorem xstepFn_tabled_empty (x : XState) (h : (xstepFn x).aborted = x.aborted) :
+    ∀ a ∈ (xstepFn x).s.agents, (x.metaOf a.id).handlers ≠ none → a.inbox = [] := by
+  unfold xstepFn xafter at h ⊢
+  simp only at h ⊢
+  have hr : (phase (x.s.now + 1) (x.s.agents.map (·.id)) x.metaOf (distOf x.s).agents).raised = false := by
+    cases hc : (phase (x.s.now + 1) (x.s.agents.map (·.id)) x.metaOf (distOf x.s).agents).raised with
+    | false => rfl
+    | true =>
+      rw [hc] at h
+      simp only [if_true] at h
+      have := congrArg List.length h
+      simp at this
+  exact phase_tabled_empty _ _ _ _ hr
+
 /-! ### witnesses: exact timing, exactly-once-when-due and order NEED the assumption (kernel-checked; the
 harness replays the same four histories on the real `Agent.handle_events`) -/
 
@@ -1907,6 +1958,7 @@ example : CeilRound9 (10 ^ 6 / 2 ^ 51) (10 ^ 6 / 2 ^ 53) ((10 : ℚ) / 1) 10 :=
 #print axioms C11_midstep
 #print axioms C11_x_partial
 #print axioms C11_x_at_most_once
+#print axioms xstepFn_tabled_empty
 #print axioms xrun_base
 #print axioms C11_full_x
 #print axioms X_witness_no_table
